@@ -150,8 +150,11 @@ func genC04(e *emitter, r *rng, thorough bool) {
 			ops = append(ops, fmt.Sprintf("c%d:%d", d, d%3))
 		}
 		if thorough {
+			// the whole chain, then the key at depth 255 neutered and both asked for one more level
+			ops = append(ops, "n255", "c257:0", "c255:1", "p257:"+hx([]byte("0")))
 			e.emit("depth255", xkLine("seed:"+hx(r.bytes(32))+":0", ops))
-		} else {
+		}
+		{
 			// quick: start from a depth-253 key made by re-serialising with the depth byte patched
 			m, _ := bip32.NewMaster(r.bytes(32), nets[0].params)
 			raw := base58.Decode(m.String())
